@@ -44,13 +44,15 @@ def run_T(rep, g, fx=None, prop='C01'):
             fails = ta.analyze(f, 't1')
             keyed = []
             kc = key_counter()
+            kc_nf = key_counter()
             for b, reason in sorted(fails):
                 kind = 'err' if 'Err' in reason else 'ok'
                 key = kc('%s|%s|%s' % (f.path, kind, term.residual_origin(f, b)))
+                nfk = kc_nf('%s|%s|%s' % (f.path, kind, _nf_origin(f, b)))
                 line = f.term(b).get('line') or (f.stmts(b)[-1][3] if f.stmts(b) else f.line)
-                keyed.append((key, reason, line))
+                keyed.append((key, reason, line, nfk))
             results[f.path] = keyed
-            if keyed and all(rep.tables.reviewed_entry('T1', k) for k, _, _ in keyed):
+            if keyed and all(rep.tables.reviewed_entry('T1', k, nfk) for k, _, _, nfk in keyed):
                 new_assume.add(f.path)
         if new_assume == assume:
             break
@@ -61,8 +63,8 @@ def run_T(rep, g, fx=None, prop='C01'):
         if not keyed:
             rep.ok('T1', f.path, 'all returns progress, empty, observe end or delegate', f.loc(),
                    why='path-sensitive dataflow over %d blocks' % len(f.blocks))
-        for key, reason, line in keyed:
-            rep.bad('T1', key, reason, f.loc(line))
+        for key, reason, line, nfk in keyed:
+            rep.bad('T1', key, reason, f.loc(line), nf=nfk)
     # T2: documented-fused by rustdoc query + the anchors the property names
     doc_fused = [f for f in g.fns.values() if f.kind == 'AssocFn' and 'all subsequent calls' in f.doc.replace('\n', ' ')
                  and 'Ok(None)' in f.doc]
@@ -84,11 +86,22 @@ def run_T(rep, g, fx=None, prop='C01'):
             rep.ok('T2', p, 'every Err return is preceded by Reader::empty', f.loc(), why='dataflow E-bit')
         else:
             kc = key_counter()
+            kc_nf = key_counter()
             for b, reason in sorted(fails):
                 key = kc('%s|%s' % (p, term.residual_origin(f, b)))
+                nfk = kc_nf('%s|%s' % (p, _nf_origin(f, b)))
                 line = f.term(b).get('line') or (f.stmts(b)[-1][3] if f.stmts(b) else f.line)
-                rep.bad('T2', key, 'documented as fused, but ' + reason, f.loc(line))
+                rep.bad('T2', key, 'documented as fused, but ' + reason, f.loc(line), nf=nfk)
     return inst, ta
+
+
+def _nf_origin(f, b):
+    """term.residual_origin rendered without local names / temporary numbers"""
+    f.nf = True
+    try:
+        return term.residual_origin(f, b)
+    finally:
+        f.nf = False
 
 
 def run_T3(rep, g):
@@ -192,14 +205,14 @@ def run_P(rep, g, reach):
         if s.status == 'ok':
             rep.ok('P', s.key, s.kind, loc, why=s.why)
             continue
-        entry = rep.tables.reviewed_entry('P', s.key)
+        entry = rep.tables.reviewed_entry('P', s.key, s.nfkey)
         if entry is not None and entry.get('requires'):
             ok, why = requires_hold(g, entry)
             if not ok:
                 rep.add_raw('P', s.key, 'violation', '%s: %s' % (s.kind, why), loc)
                 continue
         rep.bad('P', s.key, '%s at `%s` is not proven safe (operands can be chosen by the input or the caller)'
-                % (s.kind, s.expr), loc)
+                % (s.kind, s.expr), loc, nf=s.nfkey)
     rep.note('P analysed %d panic-capable sites in %d of %d read-reachable functions' % (len(allsites), nfn, len(reach)))
     return allsites
 
@@ -229,6 +242,7 @@ def run_N(rep, g, reach, scope_name='read-reachable', floor=90):
     S = Summaries(g)
     from collections import Counter
     cnt = Counter()
+    cnt_nf = Counter()
     n = 0
     for p in sorted(reach):
         fn = g.fns[p]
@@ -245,6 +259,13 @@ def run_N(rep, g, reach, scope_name='read-reachable', floor=90):
             base = '%s | cast %s->%s | %s' % (fn.path, sty, tty, expr)
             cnt[base] += 1
             key = base if cnt[base] == 1 else '%s #%d' % (base, cnt[base])
+            fn.nf = True
+            try:
+                nfb = '%s | cast %s->%s | %s as %s' % (fn.path, sty, tty, fn.fmt_op(rv[2], 5), tty)
+            finally:
+                fn.nf = False
+            cnt_nf[nfb] += 1
+            nfkey = nfb if cnt_nf[nfb] == 1 else '%s #%d' % (nfb, cnt_nf[nfb])
             loc = fn.loc(st[3])
             if src is not None and src[0] >= tr[0] and src[1] <= tr[1]:
                 rep.ok('N', key, 'value-preserving: operand in %s' % (src,), loc, why='interval')
@@ -252,7 +273,7 @@ def run_N(rep, g, reach, scope_name='read-reachable', floor=90):
             if _compared_back(fn, st, sty):
                 rep.ok('N', key, 'cast result is converted back and compared with its source', loc, why='cast-and-compare-back idiom')
                 continue
-            rep.bad('N', key, 'cast %s -> %s of `%s` may truncate or change sign (operand range %s)' % (sty, tty, fn.fmt_op(rv[2], 5), src), loc)
+            rep.bad('N', key, 'cast %s -> %s of `%s` may truncate or change sign (operand range %s)' % (sty, tty, fn.fmt_op(rv[2], 5), src), loc, nf=nfkey)
     rep.floor('N', 'narrowing casts analysed', n, floor)
     return n
 
